@@ -142,6 +142,11 @@ type Run struct {
 
 // Exec runs the goverter binary with umask 0 in dir (relative to root).
 func Exec(bin, root, dir string, env []string, args ...string) Run {
+	return ExecTimeout(bin, root, dir, env, 5*time.Minute, args...)
+}
+
+// ExecTimeout is Exec with an explicit deadline (the process is killed and Timeout is set when it passes).
+func ExecTimeout(bin, root, dir string, env []string, limit time.Duration, args ...string) Run {
 	var q []string
 	for _, a := range args {
 		q = append(q, "'"+strings.ReplaceAll(a, "'", `'\''`)+"'")
@@ -167,7 +172,7 @@ func Exec(bin, root, dir string, env []string, args ...string) Run {
 				r.Exit = -2
 			}
 		}
-	case <-time.After(5 * time.Minute):
+	case <-time.After(limit):
 		_ = cmd.Process.Kill()
 		<-done
 		r.Timeout, r.Exit = true, -1
@@ -270,10 +275,15 @@ func Explore(w World, scratchBase string) (Stats, error) {
 
 // RunIn materialises the tree in scratch, runs the CLI there and reads the tree back.
 func RunIn(bin string, t Tree, scratch, dir string, env []string, args ...string) (Tree, *Run, error) {
+	return RunInTimeout(bin, t, scratch, dir, env, 5*time.Minute, args...)
+}
+
+// RunInTimeout is RunIn with an explicit deadline for the process.
+func RunInTimeout(bin string, t Tree, scratch, dir string, env []string, limit time.Duration, args ...string) (Tree, *Run, error) {
 	if err := t.Write(scratch); err != nil {
 		return nil, nil, err
 	}
-	r := Exec(bin, scratch, dir, env, args...)
+	r := ExecTimeout(bin, scratch, dir, env, limit, args...)
 	after, err := Read(scratch)
 	if err != nil {
 		return nil, nil, err
